@@ -215,6 +215,12 @@ end
 zgneg2 :: fn p do
     (-(p, 1))
 end
+zglt :: fn p, q -> do
+    p < q
+end
+zggt :: fn p, q -> do
+    (p, 1) > (q, 2)
+end
 zgdiv :: fn p -> do
     (p, 1) / 2
 end
@@ -810,6 +816,20 @@ class Gen:
                  "        g: 1,",
                  "    }"]
         self.count("bracketed-lambda")
+        # ordering of tuples with mixed int / float components (legal component-wise): the annotations of the tuple
+        # parameters are erasable one by one, the arguments are of the other numeric kind than the other operand
+        b = [self.m() for _ in range(6)]
+        body += ["    zbefore :: fn p«A%d|param;g»: (float, int)«|»«/A%d», hi«A%d|param;g»: (int, float)«|»«/A%d» ->«A%d|ret;g» bool«|»«/A%d» do"
+                 % (b[0], b[0], b[1], b[1], b[2], b[2]),
+                 "        p < hi",
+                 "    end",
+                 "    zbefore((0.5, 1), (1, 1.5))",
+                 "    zafter :: fn lo«A%d|param;g»: (int, (float, int))«|»«/A%d», p«A%d|param;g»: (float, (int, float))«|»«/A%d» ->«A%d|ret;g» bool«|»«/A%d» do"
+                 % (b[3], b[3], b[4], b[4], b[5], b[5]),
+                 "        lo > p",
+                 "    end",
+                 "    zafter((1, (1.5, 2)), (0.5, (1, 2.5)))"]
+        self.count("mixed-tuple-ordering")
         for f in self.funcs:
             if r.random() < 0.8:
                 body.append("    " + self.E("unused", f.ty[2], self.call(f, sctx, 1), sctx) if f.ty[2] != VOID else "    " + self.call(f, sctx, 1))
@@ -924,6 +944,46 @@ C03_KINDS.update({
     "ok:valueless-case-valued": (None, ['zv3 := case ZEV do', '    P x -> x end', '    else 1 end', 'end', 'zv3 + 1']),
 })
 C03_KINDS.update({
+    # a branch whose LAST statement is a nested `do ... end` block ends without a value, whatever the block ends in
+    "valueless-nested-block":      (None, ['zv2 := if false do', '    1', 'else do', '    do', '        2', '    end', 'end', 'zv2 + 1']),
+    "valueless-nested-block-then": (None, ['zv2 := if true do', '    do', '        2', '    end', 'else do', '    1', 'end', 'zv2 + 1']),
+    "valueless-nested-block-deep": (None, ['zv2 := if false do', '    1', 'else do', '    do', '        do', '            2', '        end',
+                                           '    end', 'end', 'zv2 + 1']),
+    "valueless-nested-block-case": (None, ['zv3 := case ZEV do', '    P x ->', '        do', '            x', '        end', '    end',
+                                           '    Q -> 1 end', 'end', 'zv3 + 1']),
+    "valueless-nested-block-fn":   (None, ['zvf :: fn c: bool -> int do', '    if c do', '        1', '    else do', '        do',
+                                           '            2', '        end', '    end', 'end']),
+    "valueless-nested-block-arg":  (None, ['zimp(if true do', '    1', 'else do', '    do', '        2', '    end', 'end)']),
+    "ok:valueless-nested-unused":  (None, ['if true do', '    1', 'else do', '    do', '        2', '    end', 'end']),
+    "ok:valueless-nested-valued":  (None, ['zv2 := if true do', '    1', 'else do', '    do', '        zq :: 2', '    end', '    3', 'end',
+                                           'zv2 + 1']),
+    # ordering of tuples of different lengths (all four operators; directly, nested and through generic helpers)
+    "tuple-cmp-length-lt":      ('((1, 2, 3) < (1, 2))', None),
+    "tuple-cmp-length-gt":      ('((1, 2) > (1, 2, 3))', None),
+    "tuple-cmp-length-le":      ('((1, 2, 3) <= (1, 2))', None),
+    "tuple-cmp-length-ge":      ('((1, 2) >= (1, 2, 3))', None),
+    "tuple-cmp-length-nested":  ('(((1, 2, 3), 1) < ((1, 2), 1))', None),
+    "tuple-cmp-length-var":     (None, ['zt1 :: (1, 2, 3)', 'zt2 :: (1, 2)', 'zt1 > zt2']),
+    "tuple-cmp-component":      ('((1, "a") < (1, 2))', None),
+    "generic-tuple-cmp-length":   ('zglt((1, 2, 3), (1, 2))', None),
+    "generic-tuple-cmp-length-gt": ('zggt((1, 2), (1, 2, 3))', None),
+    "generic-tuple-cmp-length2":  ('zgcmp((1, 2), (1, 2, 3))', None),
+    "ok:generic-tuple-cmp":     (None, ['(1, 2) < (1, 3)', '(1, 2.5) > (1, 3)', '(1, 2) >= (1, 3)', 'zglt((1, 2), (3, 4))', 'zglt(1, 2.0)', 'zggt("a", "b")']),
+})
+C03_KINDS.update({
+    # a tuple type that would contain itself (occurs check, 1d60c01); lists in between are allowed
+    "cyclic-tuple-assign":  (None, ['zcy :: fn x do', '    y := x', '    y = (y, 1)', 'end']),
+    "cyclic-tuple-used":    (None, ['zcy :: fn x do', '    y := x', '    y = (y, 1)', '    z := y + y', 'end']),
+    "cyclic-tuple-mutual":  (None, ['zcy :: fn a, b do', '    p := a', '    q := b', '    p = (q, 1)', '    q = (p, 2)', 'end']),
+    "cyclic-tuple-equ":     (None, ['zcy :: fn v do', '    b := v == (v, 1)', 'end']),
+    "cyclic-tuple-nested":  (None, ['zcy :: fn x do', '    y := x', '    y = ((y, 2), 1)', 'end']),
+    "cyclic-tuple-list":    (None, ['zcy :: fn x do', '    y := x', '    zl :: [y, (y, 1)]', 'end']),
+    "cyclic-tuple-ret":     (None, ['zcy :: fn x -> do', '    if false do', '        ret (x, 1)', '    end', '    x', 'end']),
+    "ok:cyclic-through-list": (None, ['zcy :: fn x do', '    y := x', '    y = [(y, 1)]', 'end']),
+    "ok:cyclic-list":       (None, ['zcy :: fn x do', '    y := x', '    y = [y]', 'end']),
+    "ok:tuple-reassigned":  (None, ['zcy :: fn x do', '    y := (x, 1)', '    y = (x, 2)', '    z := y + y', 'end']),
+})
+C03_KINDS.update({
     # `self` inside a method has the type of the instance being created (6a11bb8)
     "self-field-add":      (None, ['zs5 :: Zs { n: 1, get: fn -> int do self.n + "a" end }']),
     "self-field-assign":   (None, ['zs5 :: Zs { n: 1, get: fn -> int do', '    self.n = "a"', '    1', 'end }']),
@@ -985,7 +1045,7 @@ def c03_plants(tmpl, kinds=None):
                     continue
                 if d.get("pure") == "1" and (k in ("loop-cond", "assign-type", "void-store", "param-type", "var-type")
                                              or k.startswith("compound") or "generic" in k
-                                             or "implicit" in k or "valueless" in k or "self-" in k):
+                                             or "implicit" in k or "valueless" in k or "self-" in k or "cyclic" in k or k == "ok:tuple-reassigned"):
                     continue        # mutable definitions / impure calls are rejected in pure functions anyway
                 out.append((k, "S", i, info, st))
         if k == "ret-type":
@@ -996,6 +1056,43 @@ def c03_plants(tmpl, kinds=None):
                 rt = d["ret"]
                 bad = '"a"' if rt != "str" else "1"
                 out.append((k, "S", i, info, ["ret %s" % bad]))
+    return out + after_terminator(out, kinds)
+
+
+# statements that follow a `ret` / `break` / `continue` in the same block are checked like any other statement
+TERMINATORS = {
+    # name: (lines before, lines after, indentation of the planted lines, needs an impure position)
+    "after-ret":        (['zaf :: fn do', '    ret'], ['end'], "    "),
+    "after-ret-value":  (['zaf :: fn -> int do', '    ret 1'], ['    2', 'end'], "    "),
+    "after-ret-branch": (['zaf :: fn do', '    if true do', '        ret'], ['    end', 'end'], "        "),
+    "after-break":      (['loop true do', '    break'], ['end'], "    "),
+    "after-continue":   (['loop false do', '    continue'], ['end'], "    "),
+    "after-break-case": (['loop true do', '    case ZEV do', '        P zx ->', '            break'], ['        end', '        else end', '    end', '    break', 'end'],
+                         "            "),
+}
+
+
+def after_terminator(plants, kinds=None, per=2):
+    """for every kind and payload of the statement plants: the same statements placed AFTER a ret / break / continue of
+    the same block (inside a fresh local function or loop, so that the terminator itself is legal), at `per` of the
+    positions.  The kind is `<kind>@<terminator>`; positive controls (`ok:`) stay positive controls."""
+    import random
+    groups = {}
+    for p in plants:
+        if p[1] != "S" or p[0] == "ret-type" or "@" in p[0]:
+            continue
+        groups.setdefault((p[0], tuple(p[4])), []).append(p)
+    rr = random.Random(7919 * len(plants) + len(groups))
+    out = []
+    for (k, pay), ps in sorted(groups.items()):
+        for w, (pre, post, ind) in TERMINATORS.items():
+            if w.startswith(("after-break", "after-continue")) and k in ("break-outside", "continue-outside"):
+                continue            # the wrapper's loop would make them legal
+            name = "%s@%s" % (k, w)
+            if kinds and name not in kinds and k not in kinds:
+                continue
+            for p in rr.sample(ps, min(per, len(ps))):
+                out.append((name, "S", p[2], p[3], pre + [ind + l for l in pay] + post))
     return out
 
 
@@ -1016,6 +1113,27 @@ C04_KINDS = {
     "pure-call-print":      (["print(1)"], "pure"),
     "pure-nested-closure":  (["zq4 :: fn do", "    zm = 3", "end"], "pure"),
     "pure-nested-branch":   (["if true do", "    if false do", "        zq5 := 2", "    end", "end"], "pure"),
+    # assignments THROUGH a field / an index inside pure functions: of a parameter, of a `::` global, of a case binding,
+    # from a closure nested in the pure function; plain and compound (self-contained: the pure function is part of the plant)
+    "pure-assign-param-field":     (["zpf :: pu q: Zb -> int do", "    q.a = 2", "    1", "end"], "any"),
+    "pure-assign-param-field-op":  (["zpf :: pu q: Zb -> int do", "    q.a += 2", "    1", "end"], "any"),
+    "pure-assign-param-index":     (["zpf :: pu q: (int, int) -> int do", "    q[0] = 2", "    1", "end"], "any"),
+    "pure-assign-param-index-op":  (["zpf :: pu q: (int, int) -> int do", "    q[1] *= 2", "    1", "end"], "any"),
+    "pure-assign-param-nested-field": (["zpf :: pu q: Zbo -> int do", "    q.inner.v = 2", "    1", "end"], "any"),
+    "pure-assign-global-field":    (["zpf :: pu -> int do", "    ZBV.a = 2", "    1", "end"], "any"),
+    "pure-assign-global-index":    (["zpf :: pu -> int do", "    ZT[0] = 2", "    1", "end"], "any"),
+    "pure-assign-case-binding-field": (["zpf :: pu q: Zo(Zb) -> int do", "    case q do", "        Som zb1 ->", "            zb1.a = 2", "        end",
+                                        "        else end", "    end", "    1", "end"], "any"),
+    "pure-assign-field-in-closure": (["zpf :: pu q: Zb -> int do", "    zin :: fn do", "        q.a = 3", "    end", "    1", "end"], "any"),
+    "pure-assign-field-in-branch": (["zpf :: pu q: Zb -> int do", "    if true do", "        loop false do", "            q.b = \"y\"", "        end",
+                                     "    end", "    1", "end"], "any"),
+    "pure-assign-field-here":      (["ZBV.a = 2"], "pure"),
+    "pure-assign-field-here-op":   (["ZBV.a -= 2"], "pure"),
+    "pure-assign-index-here":      (["ZT[1] = 2"], "pure"),
+    "ok:impure-assign-param-field": (["zpf :: fn q: Zb -> int do", "    q.a = 2", "    q.a += 1", "    1", "end"], "impure"),
+    "ok:impure-assign-param-index": (["zpf :: fn q: (int, int) -> int do", "    q[0] = 2", "    q[1] *= 2", "    1", "end"], "impure"),
+    "ok:impure-assign-global-field": (["ZBV.a = 2", "ZT[0] = 3"], "impure"),
+    "ok:pure-reads-field":         (["zpf :: pu q: Zb -> int do", "    q.a + ZBV.a + ZT[0]", "end"], "any"),
     # impure where pu declared
     "impure-as-pu-var":     (["zq6: pu int -> int : zimp"], "any"),
     "impure-as-pu-arg":     (["ztakes_pu(zimp)"], "impure"),
@@ -1049,7 +1167,7 @@ def c04_plants(tmpl, kinds=None):
                 out.append((k, "S", i, info, ["%s = %s" % (name, val)]))
                 continue
             out.append((k, "S", i, info, st))
-    return out
+    return out + after_terminator(out, kinds)
 
 
 def closed_expr(t, g, r, d=0):
@@ -1157,7 +1275,9 @@ def c05_plants(tmpl, g, r, kinds=None):
                                    [hd, '    self.n = 2', '    1', 'end }']]
     ex["tuple-index-range"] = ["ZT[2]", "(1, 2, 3)[7]"]
     st["tuple-length"] = [["zs2: (int, int) = (1, 2, 3)"], ["zs3 := (1, 2)", "zs3 = (1, 2, 3)"]]
-    ex["tuple-length"] = ["((1, 2) == (1, 2, 3))"]
+    ex["tuple-length"] = ["((1, 2) == (1, 2, 3))", "((1, 2, 3) < (1, 2))", "((1, 2) > (1, 2, 3))", "((1, 2, 3) <= (1, 2))",
+                          "((1, 2) >= (1, 2, 3))", "((1, 2) != (1, 2, 3))", "zglt((1, 2, 3), (1, 2))", "zggt((1, 2), (1, 2, 3))"]
+    st["ok:tuple-same-length"] = [["(1, 2) < (1, 3)", "zglt((1, 2), (3, 4))", "zggt(1, 2)", "zs3 :: (1, 2)", "zs3 == (3, 4)"]]
     ex["externblob-inst"] = ["(Zx { a: 1 })"]
     out = []
     ss = slots(tmpl, "S")
@@ -1166,17 +1286,21 @@ def c05_plants(tmpl, g, r, kinds=None):
         if kinds and k not in kinds:
             continue
         for e in ex.get(k, []):
+            impure_call = "zglt(" in e or "zggt(" in e
             for i, info in es:
+                if impure_call and info_dict(info).get("pure") == "1":
+                    continue
                 out.append((k, "E", i, info, e))
             for i, info in ss:
-                if info_dict(info)["where"] != "global":
+                d = info_dict(info)
+                if d["where"] != "global" and not (impure_call and d.get("pure") == "1"):
                     out.append((k, "S", i, info, [e]))
         for s in st.get(k, []):
             for i, info in ss:
                 d = info_dict(info)
                 if d["where"] == "global":
                     continue
-                if d.get("pure") == "1" and any(":=" in l or "zcf" in l or "zcg" in l or "self." in l for l in s):
+                if d.get("pure") == "1" and any(":=" in l or "zcf" in l or "zcg" in l or "self." in l or "zglt(" in l or "zggt(" in l for l in s):
                     continue        # mutable definitions / calls of impure local functions are rejected in pure functions anyway
                 out.append((k, "S", i, info, s))
         if k in ("break-outside", "continue-outside"):
@@ -1187,7 +1311,7 @@ def c05_plants(tmpl, g, r, kinds=None):
                     continue
                 # loop=0: not inside a loop of the same function (encl=1: a loop of an enclosing function)
                 out.append((k, "S", i, info, [word]))
-    return out
+    return out + after_terminator(out, kinds)
 
 
 def start_variants(base):
